@@ -196,7 +196,7 @@ def parse_coq_value(out):
     if not m:
         raise ValueError("cannot parse coqc output: " + out[:2000])
     t = re.sub(r"%[A-Za-z]+", "", m.group(1))
-    t = re.sub(r"\s+", "", t).replace(";", ",")
+    t = re.sub(r"\s+", "", t).replace(";", ",").replace("(", "").replace(")", "")
     return json.loads(t)
 
 
@@ -248,6 +248,18 @@ def glist(items):
 
 def gbytes(bs):
     return "[" + ";".join(str(b) for b in bs) + "]"
+
+
+def gbytes_smart(bs):
+    """Like gbytes, but ramps and constant runs (what the generators mostly produce) are written as
+    `ramp b n` / `rep b n` (run.Hex): coqc parses about 25k characters per second."""
+    n = len(bs)
+    if n >= 8:
+        if all(bs[i] == bs[0] for i in range(n)):
+            return f"(rep {bs[0]} {n})"
+        if all(bs[i] == (bs[0] + i) % 256 for i in range(n)):
+            return f"(ramp {bs[0]} {n})"
+    return gbytes(bs)
 
 
 def gbool(b):
